@@ -125,6 +125,18 @@ var arbiterCopyMask = func() map[string]bool {
 // state, the cache of the CR nodes' owner keys).
 var dposInternal = map[string]bool{"degradation.state": true, "State.StateKeyFrame.CurrentCRNodeOwnerKeys": true}
 
+// ArbiterCopyMask lists the generalised paths of the vote maps inside the
+// Producer copies held by the arbiter lists (shared with the live producer
+// until that one replaces them; see the C21 finding
+// arbiter-producer-copy-shares-vote-maps).
+func ArbiterCopyMask() map[string]bool {
+	m := map[string]bool{}
+	for k := range arbiterCopyMask {
+		m[k] = true
+	}
+	return m
+}
+
 type view struct {
 	name string
 	a, b *canon.Node
